@@ -911,6 +911,8 @@ fn main_grammar() -> Grammar {
 fn edge_grammar() -> Grammar {
     let mut atoms = main_grammar().atoms;
     atoms.push(Ast::pred(|b| b == 0x00 || b == 0xff));
+    // a literal that is not ASCII: its language is the UTF-8 byte string, one transition per byte
+    atoms.push(Ast::lit("\u{e9}b"));
     Grammar { atoms, edge_arities: true }
 }
 fn deep_grammar() -> Grammar {
@@ -983,7 +985,7 @@ pub fn run(ctx: &Ctx) -> Result<Report, String> {
             json!({
                 "main": {"atoms": "\"a\", \"b\", [ab], \"ab\", empty, nothing", "ops": "sequence(2-3), choice(2-3), optional, some, many",
                          "max_nodes": main_nodes, "programs": main_count, "tagged_choice_variants": main_tagged},
-                "edge-arities": {"atoms": "main atoms + [\\x00\\xff] + sequence([]) + choice([])", "ops": "main ops + sequence([x]) + choice([x])",
+                "edge-arities": {"atoms": "main atoms + [\\x00\\xff] + the non-ASCII literal \"\u{e9}b\" + sequence([]) + choice([])", "ops": "main ops + sequence([x]) + choice([x])",
                          "max_nodes": edge_nodes, "programs": edge_count, "tagged_choice_variants": edge_tagged},
                 "deep-ab": {"atoms": "\"a\", \"b\"", "ops": "main ops", "max_nodes": deep_nodes, "programs": deep_count, "tagged_choice_variants": deep_tagged},
                 "production": {"programs": prod_programs,
